@@ -4,7 +4,20 @@
 
    The sequential specification is Model/MemFs.v ([m_step]) behind per-goroutine handle slots
    ([lin_step]).  The section table [ln_sec] abstracts memmap.go AS IT IS TODAY; which methods
-   have more than one section is read off the source by `afcheck consts` ([ln_cfg_today]). *)
+   have more than one section is read off the source by `afcheck consts` ([ln_cfg_today]).
+
+   HONESTY NOTE.  The machine has no locks.  Its sections are the critical sections of the
+   filesystem lock mu as the translator finds them; between two sections of a call it lets any
+   call run, inside a section none.  The code is finer: an operation on a handle takes only a
+   file's or directory's mutex and runs inside other calls' sections of mu, between two of their
+   file-mutex sections.  Three such windows were found by real preemption and repaired
+   ([sc_rdnames_split], [sc_rename_parents_split], [sc_rename_kids_split]); a fourth is open:
+   OpenFile with O_APPEND|O_TRUNC seeks and truncates under two holds of the file's mutex, so for
+   handle operations today's OpenFile behaves like [sc_open_finish] = true although the switch is
+   false for every call that takes mu (w10 in Proofs/LinProof.v).  On the search side the
+   lock-aware cooperative scheduler (harness/cmd/afcheck/c04_verifsched.go) switches goroutines at
+   every lock acquisition, also inside sections of mu, and explores fixed window programs
+   exhaustively under a preemption bound; nothing about these interleavings is proved here. *)
 From Coq Require Import Sorting.Permutation.
 From AF Require Import Lib.Bytes Lib.Path Lib.Ops Gen.Consts Model.MemFile Model.MemFs.
 Local Open Scope nat_scope.
